@@ -2,26 +2,37 @@ package mocker
 
 // C04 probe: runs goom's real conditional-stub machinery on the operation stream.
 //
-//	c04 <mode> <target> <sig> | clause ; clause ; ... | call ; call ; ...
+//	c04 <mode> <target> <sig> [opts] | step ; step ; ...        (further `|` are read as `;`)
 //
-// mode   call  : the stub is installed on the real function (Create().Func / Struct().Method) and the patched
-//                function is called; clauses are chained on the returned *When
+// mode   call  : the stub is installed on the real function (Create().Func / Struct().Method / ExportMethod().As /
+//                Interface().Method().As) and the patched function is called through reflect; clauses are chained
+//                on the returned *When
 //        callm : same, but every clause goes through the mocker again (DefMocker.When -> m.when.When ...)
+//        calld : like call, but calls are compiled call sites where the corpus has one (nil variadic tail)
 //        eval  : CreateWhen + When.Eval, nothing is patched
-// sig    n=<params without receiver>,v=<variadic>,m=<method>,o=<results>  (checked against the reflect type)
-// clause ret k | retx k cnt | when s,s,.. | when - | in alt alt .. | andret k | returns k k .. | matches a=k a=k ..
-// call   call <recv|-> v,v,.. | call <recv|-> -
+// sig    n=<params without receiver>,v=<variadic>,m=<0 function|1 method|2 unexported method through As>,o=<results>
+// opts   s : argument expressions (arg.Any / arg.In objects) are shared between all places with the same text and type
+// step   ret k | retx k cnt | when s,s,.. | when - | in alt alt .. | andret k | returns k k .. | matches a=k a=k ..
+//        call <recv|-> v,v,.. | call <recv|-> -          registration and calls may interleave freely
+//        conc <reps> <recv|->:<v,v,..|-> ...            one goroutine per tuple, each calling reps times after a barrier
 // spec   * | 0..3 | n | {alt|alt|..}     alt (inside {}) spec | [s,s,..]      alt (in clause) spec | [s,s,..] | <i,i,..>
 //
-// Observation: one token per clause (`ok` / `panic:<class>` then `stop`), then one per call (`ret:<k>`, `ret:-`,
-// `ret:garbage(..)`, `panic:<class>`).
+// Observation: one token per step: `ok` / `panic:<class>` then `stop` for a clause; `ret:<k>`, `ret:-`,
+// `ret:garbage(..)`, `panic:<class>` for a call; `conc:<o>/<o>/..` (per goroutine its single outcome or `mixed(..)`).
+// Panic classes do not depend on message wording except for the one message the property names:
+// nosuitable ("no suitable condition"), reflect (a panic raised by package reflect), runtime (runtime.Error),
+// reject (any other panic: goom refusing a configuration or an Eval call with an explicit message).
 
 import (
 	"fmt"
 	"os"
 	"reflect"
+	"runtime"
+	"sort"
 	"strconv"
 	"strings"
+	"sync"
+	"sync/atomic"
 	"testing"
 
 	"github.com/tencent/goom/arg"
@@ -47,6 +58,8 @@ type c04Ctx struct {
 	params   []reflect.Type // parameter types without the receiver
 	variadic bool
 	isMethod bool
+	asMeth   bool                   // unexported method through ExportMethod(..).As(..)
+	share    map[string]interface{} // opts s: one expression object per (text, type)
 }
 
 // ptype is the type a spec at argument position j is resolved against (variadic tail: the element type).
@@ -65,30 +78,20 @@ func (c *c04Ctx) ptype(j int) reflect.Type {
 }
 
 func c04Class(r interface{}) string {
+	if _, ok := r.(runtime.Error); ok {
+		return "runtime"
+	}
+	if _, ok := r.(*reflect.ValueError); ok {
+		return "reflect"
+	}
 	msg := fmt.Sprint(r)
 	switch {
 	case strings.Contains(msg, "no suitable condition"):
 		return "nosuitable"
-	case strings.Contains(msg, "args length not match"):
-		return "arglen"
-	case strings.Contains(msg, "returns lenth not match"):
-		return "retlen"
-	case strings.Contains(msg, "Call When("):
-		return "whenerr"
-	case strings.Contains(msg, "create param match fail"):
-		return "inerr"
-	case strings.Contains(msg, "Return Value ("):
-		return "reterr"
-	case strings.Contains(msg, "Call Eval("):
-		return "evalerr"
-	case strings.Contains(msg, "match fail"):
-		return "matchfail"
-	case strings.Contains(msg, "reflect"):
+	case strings.HasPrefix(msg, "reflect:") || strings.HasPrefix(msg, "reflect."):
 		return "reflect"
-	case strings.Contains(msg, "runtime error"):
-		return "runtime"
 	}
-	return "other-" + vh.Class(msg)
+	return "reject"
 }
 
 // ---- spec parsing ------------------------------------------------------------------------------------------
@@ -191,8 +194,48 @@ func c04ParseSpecs(s string) ([]c04Spec, bool) {
 
 // value builds the Go value a user would write for this spec at a position of type t.
 func (c *c04Ctx) value(sp c04Spec, t reflect.Type) (interface{}, bool) {
+	if c.share != nil && sp.kind != 'v' {
+		key := c04Show(sp) + "@" + t.String()
+		if v, ok := c.share[key]; ok {
+			return v, true
+		}
+		v, ok := c.value1(sp, t)
+		if ok {
+			c.share[key] = v
+		}
+		return v, ok
+	}
+	return c.value1(sp, t)
+}
+
+func c04Show(sp c04Spec) string {
 	switch sp.kind {
 	case '*':
+		return "*"
+	case 'v':
+		return sp.idx
+	}
+	var alts []string
+	for k, a := range sp.alts {
+		var es []string
+		for _, e := range a {
+			es = append(es, c04Show(e))
+		}
+		if sp.tuple[k] {
+			alts = append(alts, "["+strings.Join(es, ",")+"]")
+		} else {
+			alts = append(alts, es[0])
+		}
+	}
+	return "{" + strings.Join(alts, "|") + "}"
+}
+
+func (c *c04Ctx) value1(sp c04Spec, t reflect.Type) (interface{}, bool) {
+	switch sp.kind {
+	case '*':
+		if c.share != nil {
+			return arg.AnyValues, true // the package-level singleton
+		}
 		return arg.Any(), true
 	case 'v':
 		return c04Domain(t, sp.idx)
@@ -339,34 +382,44 @@ func c04Split(toks []string, sep string) [][]string {
 
 func c04Run(toks []string) (obs string) {
 	secs := c04Split(toks, "|")
-	if len(secs) != 3 || len(secs[0]) != 4 {
+	if len(secs) < 2 || len(secs[0]) < 4 || len(secs[0]) > 5 {
 		return "bad-op"
 	}
 	mode, name, sig := secs[0][1], secs[0][2], secs[0][3]
 	c := &c04Ctx{}
+	if len(secs[0]) == 5 {
+		if secs[0][4] != "s" {
+			return "bad-op"
+		}
+		c.share = map[string]interface{}{}
+	}
 	for i := range c04Targets {
 		if c04Targets[i].name == name {
 			c.tgt = &c04Targets[i]
 		}
 	}
-	if c.tgt == nil || (mode != "call" && mode != "callm" && mode != "eval") {
+	if c.tgt == nil || (mode != "call" && mode != "callm" && mode != "calld" && mode != "eval") {
 		return "bad-op"
 	}
-	if c.tgt.fn != nil {
+	skip := 0
+	switch {
+	case c.tgt.fn != nil:
 		c.fnv = reflect.ValueOf(c.tgt.fn)
-	} else {
+	case c.tgt.asFn != nil: // goom is given the signature with the receiver as parameter 0
+		c.fnv = reflect.ValueOf(c.tgt.asFn)
+		c.asMeth, skip = true, 1
+	case c.tgt.ifn != nil: // parameter 0 is *IContext
+		c.fnv = reflect.ValueOf(c.tgt.ifn)
+		c.isMethod, skip = true, 1
+	default:
 		m, ok := reflect.TypeOf(c.tgt.recv[0]).MethodByName(c.tgt.method)
 		if !ok {
 			return "bad-op"
 		}
 		c.fnv = m.Func
-		c.isMethod = true
+		c.isMethod, skip = true, 1
 	}
 	c.typ = c.fnv.Type()
-	skip := 0
-	if c.isMethod {
-		skip = 1
-	}
 	for i := skip; i < c.typ.NumIn(); i++ {
 		c.params = append(c.params, c.typ.In(i))
 	}
@@ -377,7 +430,11 @@ func c04Run(toks []string) (obs string) {
 		}
 		return 0
 	}
-	actual := fmt.Sprintf("n=%d,v=%d,m=%d,o=%d", len(c.params), b2i(c.variadic), b2i(c.isMethod), c.typ.NumOut())
+	mk := b2i(c.isMethod)
+	if c.asMeth {
+		mk = 2
+	}
+	actual := fmt.Sprintf("n=%d,v=%d,m=%d,o=%d", len(c.params), b2i(c.variadic), mk, c.typ.NumOut())
 	if actual != sig {
 		return "bad-sig:" + actual
 	}
@@ -393,19 +450,26 @@ func c04Run(toks []string) (obs string) {
 		w        *When
 		exported ExportedMocker
 	)
+	evalFn := c.fnv.Interface() // what CreateWhen receives in eval mode
+	evalMethod := c.isMethod    // As-path: goom treats the signature as a plain function
 	if mode != "eval" {
 		mock := Create()
 		defer mock.Reset()
-		if c.isMethod {
-			exported = mock.Struct(c.tgt.recv[0]).Method(c.tgt.method)
-		} else {
+		switch {
+		case c.tgt.fn != nil:
 			exported = mock.Func(c.tgt.fn)
+		case c.asMeth:
+			exported = mock.Struct(c.tgt.recv[0]).ExportMethod(c.tgt.method).As(c.tgt.asFn)
+		case c.tgt.ifn != nil:
+			exported = mock.Interface(&c04IVar).Method(c.tgt.method).As(c.tgt.ifn)
+		default:
+			exported = mock.Struct(c.tgt.recv[0]).Method(c.tgt.method)
 		}
 	}
 	// create is the first step in eval mode (what DefMocker/MethodMocker do before delegating to the When)
 	create := func(args []interface{}, def []interface{}) {
 		var err error
-		w, err = CreateWhen(nil, c.fnv.Interface(), args, def, c.isMethod)
+		w, err = CreateWhen(nil, evalFn, args, def, evalMethod)
 		if err != nil {
 			panic(err)
 		}
@@ -419,13 +483,160 @@ func c04Run(toks []string) (obs string) {
 		f()
 		return "ok"
 	}
-	clauses := c04Split(secs[1], ";")
-	for _, cl := range clauses {
+	// one call with logical arguments argv (receiver index recv); returns the observation
+	doCall := func(recv int, argv []interface{}) string {
+		var got string
+		o := guard(func() {
+			if mode == "eval" {
+				if c.asMeth { // goom sees a plain function whose parameter 0 is the receiver
+					argv = append([]interface{}{c.tgt.recv[recv]}, argv...)
+				}
+				got = c04Decode(w.Eval(argv...))
+				return
+			}
+			// the fake implementation behind a mocked interface variable cannot be called through reflect
+			if (mode == "calld" || c.tgt.ifn != nil) && c.tgt.direct != nil {
+				for _, a := range argv {
+					if a == nil {
+						panic("probe: nil argument in a direct call")
+					}
+				}
+				got = c04Decode(c.tgt.direct(recv, argv))
+				return
+			}
+			var in []reflect.Value
+			switch {
+			case c.tgt.ifn != nil:
+			case c.isMethod || c.asMeth:
+				in = append(in, reflect.ValueOf(c.tgt.recv[recv]))
+			}
+			for j, a := range argv {
+				if a == nil {
+					in = append(in, reflect.Zero(c.ptype(j)))
+				} else {
+					v := reflect.ValueOf(a)
+					if pt := c.ptype(j); pt.Kind() == reflect.Interface {
+						b := reflect.New(pt).Elem()
+						b.Set(v)
+						v = b
+					}
+					in = append(in, v)
+				}
+			}
+			var outs []reflect.Value
+			switch {
+			case c.tgt.ifn != nil:
+				outs = reflect.ValueOf(c04IVar).MethodByName(c.tgt.method).Call(in) // through the mocked interface variable
+			case c.asMeth:
+				outs = reflect.ValueOf(c.tgt.via).Call(in) // exported wrapper -> patched unexported method
+			default:
+				outs = c.fnv.Call(in) // enters the patched machine code of the real function
+			}
+			vals := make([]interface{}, len(outs))
+			for i, ov := range outs {
+				vals[i] = ov.Interface()
+			}
+			got = c04Decode(vals)
+		})
+		if o != "ok" {
+			return o
+		}
+		return got
+	}
+	parseArgs := func(s string) ([]interface{}, bool) {
+		var argv []interface{}
+		if s == "-" {
+			return argv, true
+		}
+		for j, ix := range strings.Split(s, ",") {
+			v, ok := c04Domain(c.ptype(j), ix)
+			if !ok {
+				return nil, false
+			}
+			argv = append(argv, v)
+		}
+		return argv, true
+	}
+	parseRecv := func(s string) (int, bool) {
+		if !(c.isMethod || c.asMeth) || c.tgt.ifn != nil {
+			return 0, true
+		}
+		ri, err := strconv.Atoi(s)
+		return ri, err == nil && ri < len(c.tgt.recv)
+	}
+
+	var steps [][]string
+	for _, sec := range secs[1:] {
+		steps = append(steps, c04Split(sec, ";")...)
+	}
+	for _, cl := range steps {
 		if len(cl) == 0 {
 			continue
 		}
 		var step func()
 		switch cl[0] {
+		case "call":
+			if len(cl) != 3 || w == nil {
+				return "bad-op"
+			}
+			argv, ok := parseArgs(cl[2])
+			recv, ok2 := parseRecv(cl[1])
+			if !ok || !ok2 {
+				return "bad-op"
+			}
+			res = append(res, doCall(recv, argv))
+			continue
+		case "conc":
+			if len(cl) < 3 || w == nil {
+				return "bad-op"
+			}
+			reps, _ := strconv.Atoi(cl[1])
+			type job struct {
+				recv int
+				argv []interface{}
+			}
+			var jobs []job
+			for _, t := range cl[2:] {
+				ra := strings.SplitN(t, ":", 2)
+				if len(ra) != 2 {
+					return "bad-op"
+				}
+				argv, ok := parseArgs(ra[1])
+				recv, ok2 := parseRecv(ra[0])
+				if !ok || !ok2 {
+					return "bad-op"
+				}
+				jobs = append(jobs, job{recv, argv})
+			}
+			outs := make([]string, len(jobs))
+			var ready int32
+			var wg sync.WaitGroup
+			for gi := range jobs {
+				wg.Add(1)
+				go func(gi int) {
+					defer wg.Done()
+					atomic.AddInt32(&ready, 1)
+					for atomic.LoadInt32(&ready) < int32(len(jobs)) { // spin: all goroutines really overlap
+					}
+					seen := map[string]bool{}
+					for r := 0; r < reps; r++ {
+						seen[doCall(jobs[gi].recv, jobs[gi].argv)] = true
+					}
+					var ks []string
+					for k := range seen {
+						ks = append(ks, k)
+					}
+					sort.Strings(ks)
+					if len(ks) == 1 {
+						outs[gi] = ks[0]
+					} else {
+						outs[gi] = "mixed(" + strings.Join(ks, ",") + ")"
+					}
+				}(gi)
+			}
+			wg.Wait()
+			res = append(res, "conc:"+strings.Join(outs, "/"))
+			continue
 		case "ret", "retx":
 			k, _ := strconv.Atoi(cl[1])
 			cnt := c.typ.NumOut()
@@ -437,6 +648,8 @@ func c04Run(toks []string) (obs string) {
 				switch {
 				case w != nil && mode != "callm":
 					w.Return(vals...)
+				case w != nil:
+					exported.Return(vals...)
 				case mode == "eval":
 					def := vals
 					if def == nil { // what DefMocker.Return / MethodMocker.Return do (mocker.go:301,560)
@@ -472,6 +685,8 @@ func c04Run(toks []string) (obs string) {
 				switch {
 				case w != nil && mode != "callm":
 					w.Returns(vals...)
+				case w != nil:
+					exported.Returns(vals...)
 				case mode == "eval":
 					create(nil, nil)
 					w.Returns(vals...)
@@ -495,6 +710,8 @@ func c04Run(toks []string) (obs string) {
 				switch {
 				case w != nil && mode != "callm":
 					w.When(args...)
+				case w != nil:
+					exported.When(args...)
 				case mode == "eval":
 					create(args, nil)
 				default:
@@ -573,64 +790,6 @@ func c04Run(toks []string) (obs string) {
 	}
 	if w == nil {
 		return "bad-op"
-	}
-	for _, cl := range c04Split(secs[2], ";") {
-		if len(cl) == 0 {
-			continue
-		}
-		if len(cl) != 3 || cl[0] != "call" {
-			return "bad-op"
-		}
-		var argv []interface{}
-		if cl[2] != "-" {
-			for j, ix := range strings.Split(cl[2], ",") {
-				v, ok := c04Domain(c.ptype(j), ix)
-				if !ok {
-					return "bad-op"
-				}
-				argv = append(argv, v)
-			}
-		}
-		var o string
-		if mode == "eval" {
-			o = guard(func() { o2 := c04Decode(w.Eval(argv...)); res = append(res, o2) })
-			if o != "ok" {
-				res = append(res, o)
-			}
-			continue
-		}
-		var in []reflect.Value
-		if c.isMethod {
-			ri, err := strconv.Atoi(cl[1])
-			if err != nil || ri >= len(c.tgt.recv) {
-				return "bad-op"
-			}
-			in = append(in, reflect.ValueOf(c.tgt.recv[ri]))
-		}
-		for j, a := range argv {
-			if a == nil {
-				in = append(in, reflect.Zero(c.ptype(j)))
-			} else {
-				v := reflect.ValueOf(a)
-				if pt := c.ptype(j); pt.Kind() == reflect.Interface {
-					b := reflect.New(pt).Elem()
-					b.Set(v)
-					v = b
-				}
-				in = append(in, v)
-			}
-		}
-		o = guard(func() {
-			outs := c.fnv.Call(in) // enters the patched machine code of the real function
-			vals := make([]interface{}, len(outs))
-			for i, ov := range outs {
-				vals[i] = ov.Interface()
-			}
-			res = append(res, c04Decode(vals))
-		})
-		if o != "ok" {
-			res = append(res, o)
-		}
 	}
 	return strings.Join(res, " ")
 }
